@@ -308,7 +308,18 @@ func Enumerate[C any](t *testing.T, id, check string, opts Opts, cases func(yiel
 	r.st.Exhaustive = true
 	failKey := ""
 	defer func() { r.flush(t.Failed(), failKey) }()
+	// VERIF_ENUM_SHARD=i/n: this process takes every n-th case starting at i
+	shardI, shardN := 0, 1
+	fmt.Sscanf(os.Getenv("VERIF_ENUM_SHARD"), "%d/%d", &shardI, &shardN)
+	if shardN < 1 {
+		shardN = 1
+	}
+	idx := -1
 	cases(func(c C) bool {
+		idx++
+		if idx%shardN != shardI {
+			return true
+		}
 		js, _ := json.Marshal(c)
 		if opts.Journal {
 			r.journal(js)
